@@ -737,8 +737,13 @@ pub fn import_err_code(e: &import::ImportError) -> u8 {
 
 /// import::import(Csv) + to_double_entry + the printing of ImportCmd::run
 pub fn run_import(csv: &str, entry: &config::ConfigEntry) -> ImpObs {
+    run_import_fmt(csv, import::Format::Csv, entry)
+}
+
+/// import::import(format) + to_double_entry + the printing of ImportCmd::run
+pub fn run_import_fmt(input: &str, format: import::Format, entry: &config::ConfigEntry) -> ImpObs {
     let r = std::panic::catch_unwind(|| {
-        let txns = match import::import(csv.as_bytes(), import::Format::Csv, entry) {
+        let txns = match import::import(input.as_bytes(), format, entry) {
             Ok(t) => t,
             Err(e) => return ImpObs::Err(import_err_code(&e), format!("{}", e)),
         };
